@@ -357,7 +357,9 @@ fn gen_source(rng: &mut Rng, big: bool) -> (String, &'static str, bool) {
     o.crlf = rng.chance(1, 8);
     o.unicode = rng.chance(1, 4);
     let (p, _) = jsgen::gen_program(rng, o);
-    match rng.below(33) {
+    match rng.below(36) {
+        33 | 34 => (jsgen::gen_prologue(rng), "directive-prologue", true),
+        35 => (jsgen::gen_long_line_error(rng), "long-line-syntax-error", false),
         31 | 32 => {
             let n = *rng.pick(&[64usize, 65, 100, 128, 255, 256, 257, 511, 512, 513, 600, 1024]);
             (jsgen::gen_repeat(rng, n), "repeated-construct", true)
